@@ -8,7 +8,7 @@ from mpsa.cfg import CFG, Node, calls_in, header_expr, walk_shallow
 from mpsa.guard import Guard
 from mpsa.flow import INF, count_minmax, fmt_path, held_locks, path_avoiding, reachable
 from mpsa.loader import dotted, norm_text
-from mpsa.match import Scope, has_timeout, is_name, is_none, kwarg, method_of, walk_shallow_func
+from mpsa.match import Scope, has_timeout, is_name, is_none, kwarg, method_of, walk_deep_func, walk_shallow_func
 from mpsa.report import Checker
 
 from .common import QUEUE, build_cfg, make_fallible
@@ -41,6 +41,9 @@ def run(ck: Checker):
     ck.rule('C17-3', 'responsive waits: blocking get/put of ResponsiveQueue wait in slices bounded by wait_interval_seconds and test the stop event after every expiry; IterableQueue wraps the queue whenever a stop event is given (EXITS)', minimum=3)
     mod = ck.repo.module(QUEUE)
     cls = mod.cls('IterableQueue')
+    ck.rule('C17-4', 'configuration travels with the object: every attribute set by __init__ of ResponsiveQueue / IterableQueue is carried by __getstate__ and restored by __setstate__ in the same order (AGREE)', minimum=2)
+    check_pickle_state(ck, 'C17-4', mod.cls('ResponsiveQueue'))
+    check_pickle_state(ck, 'C17-4', cls)
     # ------------------------------------------------------------------ C17-1
     f = cls.method('__next__')
     sc = Scope(f)
@@ -261,3 +264,40 @@ def run(ck: Checker):
             if p is not None:
                 ok = False
     ck.ob('C17-3', init, (init.node.lineno, 'IterableQueue wrap'), ok, 'whenever a stop event is given the data queue is wrapped in ResponsiveQueue (or the combination is rejected)' if ok else 'a stop event can be given without the queue being wrapped: blocked gets/puts would not notice the stop request')
+
+
+def check_pickle_state(ck: Checker, rid: str, cls):
+    """Every attribute __init__ sets travels with the object: __getstate__ returns them all, __setstate__ restores the
+    same sequence (or re-runs __init__ with as many values as __init__ has parameters, in parameter order)."""
+    init, gs, ss = cls.method('__init__'), cls.method('__getstate__'), cls.method('__setstate__')
+    attrs = []
+    for n in walk_deep_func(init.node):
+        if isinstance(n, ast.Assign):
+            for t in n.targets:
+                d = dotted(t)
+                if d and d.startswith('self.') and d.count('.') == 1 and d not in attrs:
+                    attrs.append(d)
+    rets = [n for n in walk_shallow_func(gs.node) if isinstance(n, ast.Return)]
+    probs = []
+    carried = []
+    if len(rets) != 1 or not isinstance(rets[0].value, ast.Tuple):
+        probs.append('__getstate__ does not return one tuple of attributes')
+    else:
+        carried = [dotted(e) for e in rets[0].value.elts]
+        missing = [a for a in attrs if a not in carried]
+        if missing:
+            probs.append(f'{missing} set by __init__ do(es) not travel in __getstate__: in a child process the object falls back to a default / a fresh object instead of what was configured (for a lock: the processes no longer exclude each other; for the wait interval: stop requests are noticed late)')
+    sp = ss.params()
+    restored = None
+    for n in walk_shallow_func(ss.node):
+        if isinstance(n, ast.Assign) and isinstance(n.targets[0], ast.Tuple) and len(sp) > 1 and is_name(n.value, sp[1]):
+            restored = [dotted(e) for e in n.targets[0].elts]
+        if isinstance(n, ast.Call) and dotted(n.func) == 'self.__init__':
+            # re-initialisation: as many values as parameters, in order
+            ip = init.params()[1:]
+            want = [f'self.{p}' for p in ip]
+            ok_map = all(any(isinstance(k, ast.Assign) and dotted(k.targets[0]) == f'self.{p}' and is_name(k.value, p) for k in walk_shallow_func(init.node)) for p in ip)
+            restored = carried if (ok_map and carried == want and len(n.args) == 1 and isinstance(n.args[0], ast.Starred)) else ['<__init__ with fewer / other values than __getstate__ carries>']
+    if carried and restored != carried:
+        probs.append(f'__setstate__ restores {restored}, __getstate__ carries {carried}')
+    ck.ob(rid, gs, rets[0] if rets else gs.node, not probs, '; '.join(probs) if probs else f'all {len(attrs)} attributes set by __init__ travel through __getstate__/__setstate__ in the same order')
